@@ -19,12 +19,16 @@ detection has to establish.  M-POOL (Model/Pool.lean) is that protocol (worker l
 executor thread inside `run()`) at the granularity of its atomic steps, for any number of workers and every
 interleaving: `run_returns_only_when_the_pool_is_idle` and `idle_detection_never_gets_stuck` at the end of this file.
 PARTIAL: sequentially consistent atomics; the abort signal, time-outs and worker panics are not in M-POOL.
+M-STEAL (Model/Steal.lean, end of this file) is the bit-level core of the choice of a steal victim: `find_bit`,
+`gen_bounded` and the rank closure of `ShuffledStealers::new`, over `BitVec 64`, for every input.
 -/
 import NexoVerif.Lemmas.NetSinks
 import NexoVerif.Lemmas.TaskThm
 import NexoVerif.Model.NetRun
 import NexoVerif.Lemmas.PoolLive
 import NexoVerif.Lemmas.InjThm
+import NexoVerif.Lemmas.StealBV
+import NexoVerif.Lemmas.StealThm
 import NexoVerif.Extracted
 
 namespace NexoVerif.Net
@@ -274,3 +278,62 @@ example : (run (fresh 3) [.insert 1, .insert 2, .insert 3, .insert 4, .pop]).inn
     out (run (fresh 3) [.insert 1, .insert 2, .insert 3, .insert 4]) .pop = [1, 2, 3] := by decide
 
 end NexoVerif.Inj
+
+/-! ### M-STEAL — whom a searching worker steals from first (`find_bit`, `gen_bounded`, `ShuffledStealers::new`) -/
+namespace NexoVerif.Steal
+
+/-- **steal_sources_are_the_modelled_ones** — read from the source on every run: the bodies of `find_bit`, `sum_masks`,
+`Rng::gen_bounded` and the rank closure of `ShuffledStealers::new` are, token for token, the ones M-STEAL was written
+from; the masks of the model are the ones `sum_masks` computes. -/
+theorem steal_sources_are_the_modelled_ones :
+    Extracted.findBitSrc = findBitSrcModelled ∧ Extracted.sumMasksSrc = sumMasksSrcModelled ∧
+    Extracted.genBoundedSrc = genBoundedSrcModelled ∧ Extracted.stealRankSrc = stealRankSrcModelled ∧
+    (M0 = maskFormula 0 ∧ M1 = maskFormula 1 ∧ M2 = maskFormula 2 ∧ M3 = maskFormula 3 ∧
+      M4 = maskFormula 4 ∧ M5 = maskFormula 5) :=
+  ⟨rfl, rfl, rfl, rfl, masks_are_formula⟩
+
+/-- **find_bit_returns_the_set_bit_of_the_requested_rank** — for every 64-bit value and every rank between 1 and its
+number of set bits (counted bit by bit, `popNaive`): the returned position is below 64, the bit there is set, and
+exactly `rank - 1` set bits lie below it.  (Proved by `bv_decide`: see the axioms recorded for this theorem.) -/
+theorem find_bit_returns_the_set_bit_of_the_requested_rank (v r : BitVec 64)
+    (h1 : 1#64 ≤ r) (h2 : r ≤ popNaive v) :
+    findBit v (fun _ => r) < 64#64 ∧
+    (v >>> findBit v (fun _ => r)) &&& 1#64 = 1#64 ∧
+    popNaive (v &&& ((1#64 <<< findBit v (fun _ => r)) - 1#64)) + 1#64 = r := by
+  have h := findBit_spec v r h1 (by rw [popCount_eq]; exact h2)
+  rw [popCount_eq] at h
+  exact h
+
+/-- **gen_bounded_is_below_its_bound** — for every 64-bit output of `gen` and every bound > 0 (kernel-only proof). -/
+theorem gen_bounded_is_below_its_bound (r b : Nat) (hr : r < 2 ^ 64) (hb : 0 < b) : genBounded r b < b :=
+  genBounded_lt r b hr hb
+
+/-- **first_steal_candidate_is_a_candidate** — whatever the random number: for a non-empty candidate set the worker
+index `ShuffledStealers::new` starts from is below 64 and is one of the candidates (so `stealers[..]` is indexed by an
+active worker's identifier and never by the meaningless position that `find_bit` returns for a rank out of range). -/
+theorem first_steal_candidate_is_a_candidate (c : BitVec 64) (r : Nat) (hc : c ≠ 0#64) (hr : r < 2 ^ 64) :
+    firstCandidate c r < 64#64 ∧ (c >>> firstCandidate c r) &&& 1#64 = 1#64 := by
+  unfold firstCandidate
+  rw [findBit_rank_only]
+  have hp := popCount_ne_zero c hc
+  have hn1 : 0 < (popCount c).toNat := by
+    have := BitVec.le_def.1 hp
+    simp at this
+    omega
+  have hb := genBounded_lt r _ hr hn1
+  have hlt : (popCount c).toNat < 2 ^ 64 := (popCount c).isLt
+  have hmod : (BitVec.ofNat 64 (genBounded r (popCount c).toNat + 1)).toNat
+      = genBounded r (popCount c).toNat + 1 := by
+    rw [BitVec.toNat_ofNat]; apply Nat.mod_eq_of_lt; omega
+  have h1 : 1#64 ≤ BitVec.ofNat 64 (genBounded r (popCount c).toNat + 1) := by
+    rw [BitVec.le_def, hmod]; simp
+  have h2 : BitVec.ofNat 64 (genBounded r (popCount c).toNat + 1) ≤ popCount c := by
+    rw [BitVec.le_def, hmod]; omega
+  have h := findBit_spec c _ h1 h2
+  exact ⟨h.1, h.2.1⟩
+
+-- non-vacuity / tests (labelled as tests): candidates 0b10110, ranks 1..3 give positions 1, 2, 4
+example : findBit 0b10110#64 (fun _ => 1#64) = 1#64 ∧ findBit 0b10110#64 (fun _ => 2#64) = 2#64 ∧
+    findBit 0b10110#64 (fun _ => 3#64) = 4#64 ∧ popCount 0b10110#64 = 3#64 ∧ genBounded (2 ^ 63) 3 = 1 := by decide
+
+end NexoVerif.Steal
